@@ -45,7 +45,104 @@ fn dump(v: &Value, out: &mut String) {
 	}
 }
 
+fn kv(e: &json_syntax::object::Entry) -> String {
+	let mut d = String::new();
+	dump(&e.value, &mut d);
+	format!("{}={}", e.key.as_str(), d)
+}
+
+fn state(o: &json_syntax::Object) -> String {
+	let es: Vec<String> = o.iter().map(kv).collect();
+	let mut keys: Vec<&str> = o.iter().map(|e| e.key.as_str()).collect();
+	keys.sort();
+	keys.dedup();
+	let qs: Vec<String> = keys
+		.iter()
+		.map(|k| {
+			let ix: Vec<String> = o.indexes_of(*k).map(|i| i.to_string()).collect();
+			let vs: Vec<String> = o.get_entries(*k).map(kv).collect();
+			format!("{}:{}:{}:{:?}", k, ix.join("."), vs.join("."), o.index_of(*k))
+		})
+		.collect();
+	format!("S {} Q {}", es.join(","), qs.join(";"))
+}
+
+/// `obj OP OP ...`: replays a history of Object operations on the REAL Object and prints,
+/// per operation, its result, the entries and every key-based query (or PANIC).
+fn obj_mode(ops: &[String]) {
+	use json_syntax::{Object, Value};
+	let mut o = Object::new();
+	for op in ops {
+		let f: Vec<&str> = op.split(':').collect();
+		let r = std::panic::catch_unwind(std::panic::AssertUnwindSafe(|| {
+			let val = |s: &str| Value::from(s.parse::<i64>().unwrap());
+			let take = |it: &mut dyn Iterator<Item = json_syntax::object::Entry>, c: usize| -> String {
+				let mut out = vec![];
+				for _ in 0..c {
+					match it.next() {
+						Some(e) => out.push(kv(&e)),
+						None => out.push("-".to_string()),
+					}
+				}
+				out.join("|")
+			};
+			match f[0] {
+				"push" => format!("{}", o.push(f[1].into(), val(f[2]))),
+				"push_front" => format!("{}", o.push_front(f[1].into(), val(f[2]))),
+				"remove_at" => match o.remove_at(f[1].parse().unwrap()) {
+					Some(e) => kv(&e),
+					None => "none".to_string(),
+				},
+				"insert" => match o.insert(f[1].into(), val(f[2])) {
+					Some(mut it) => format!("some:{}", take(&mut it, f[3].parse().unwrap())),
+					None => "none".to_string(),
+				},
+				"insert_front" => {
+					let mut it = o.insert_front(f[1].into(), val(f[2]));
+					format!("it:{}", take(&mut it, f[3].parse().unwrap()))
+				}
+				"remove" => {
+					let mut it = o.remove(f[1]);
+					format!("it:{}", take(&mut it, f[2].parse().unwrap()))
+				}
+				"remove_unique" => match o.remove_unique(f[1]) {
+					Ok(None) => "ok:none".to_string(),
+					Ok(Some(e)) => format!("ok:{}", kv(&e)),
+					Err(json_syntax::object::Duplicate(a, b)) => format!("dup:{},{}", kv(&a), kv(&b)),
+				},
+				"sort" => {
+					o.sort();
+					"-".to_string()
+				}
+				_ => "?".to_string(),
+			}
+		}));
+		match r {
+			Ok(res) => {
+				let st = std::panic::catch_unwind(std::panic::AssertUnwindSafe(|| state(&o)));
+				match st {
+					Ok(st) => println!("R {} {}", res, st),
+					Err(_) => {
+						println!("R {} PANIC-in-queries", res);
+						return;
+					}
+				}
+			}
+			Err(_) => {
+				println!("PANIC");
+				return;
+			}
+		}
+	}
+}
+
 fn main() {
+	let args: Vec<String> = std::env::args().skip(1).collect();
+	if args.first().map(|s| s.as_str()) == Some("obj") {
+		std::panic::set_hook(Box::new(|_| {}));
+		obj_mode(&args[1..]);
+		return;
+	}
 	for arg in std::env::args().skip(1) {
 		let bytes: Vec<u8> = (0..arg.len() / 2).map(|i| u8::from_str_radix(&arg[2 * i..2 * i + 2], 16).unwrap()).collect();
 		let text = String::from_utf8(bytes).unwrap();
